@@ -14,9 +14,10 @@
 (* One TLC state per subset of the K x K lattice with 1..MaxN points; the   *)
 (* harness replays each set in several orders and with duplicates.         *)
 (***************************************************************************)
-EXTENDS Hull, TLC, Json
+EXTENDS Hull, TLC, Json, SequencesExt
 
-CONSTANTS K, MaxN, Stride, Offset
+CONSTANTS K, MaxN, Stride, Offset,
+          BigK      \* sizes of the parametric families (full k x k lattice square, lattice triangle x + y <= k), may be {}
 NG == (K + 1) * (K + 1)
 GridSeq == [i \in 1 .. NG |-> <<(i - 1) \div (K + 1), (i - 1) % (K + 1)>>]
 
@@ -32,7 +33,22 @@ MinRectArea(S) == LET h == HullRing(S) IN
 VARIABLES sel      \* increasing sequence of grid indices = the chosen subset
 vars == <<sel>>
 Pts(s) == {GridSeq[s[i]] : i \in DOMAIN s}
-Init == sel \in {<<i>> : i \in {j \in 1 .. NG : j % Stride = Offset % Stride}}
+\* Parametric families far beyond the enumerated sizes (size-gated code paths; long collinear runs on every hull edge):
+\* all points of the k x k lattice square, and of the lattice triangle x + y <= k.  The hull is given in closed form and
+\* BigOK checks the three conditions that determine a hull uniquely (strictly convex ring of input points containing all).
+SquarePts(k) == (0 .. k) \X (0 .. k)
+TrianglePts(k) == {p \in (0 .. k) \X (0 .. k) : p[1] + p[2] <= k}
+SquareRing(k) == << <<0, 0>>, <<k, 0>>, <<k, k>>, <<0, k>>, <<0, 0>> >>
+TriangleRing(k) == << <<0, 0>>, <<k, 0>>, <<0, k>>, <<0, 0>> >>
+RingRect(S, h) == RatNorm(SetRatMin({RectAreaAlong(S, h[i], h[i+1]) : i \in 1 .. Len(h) - 1}))
+BigCase(S, h, k) == [op |-> "hull", pts |-> SetToSeq(S), degenerate |-> FALSE, ring |-> h, mrr |-> RingRect(S, h), bbox2 |-> k * k]
+IsHullOf(S, h) == LET n == Len(h) - 1 IN
+    /\ \A i \in 1 .. n : h[i] \in S
+    /\ \A i \in 1 .. n : Orient(h[i], h[i + 1], h[(i % n) + 2]) > 0
+    /\ \A p \in S : \A i \in 1 .. n : Orient(h[i], h[i + 1], p) >= 0
+
+Init == \/ sel \in {<<i>> : i \in {j \in 1 .. NG : j % Stride = Offset % Stride}}
+        \/ sel \in {<<0 - k>> : k \in BigK}
 Case(s) ==
     LET S == Pts(s) IN
     IF AllCollinear(S)
@@ -40,12 +56,20 @@ Case(s) ==
     ELSE [op |-> "hull", pts |-> [i \in DOMAIN s |-> GridSeq[s[i]]], degenerate |-> FALSE,
           ring |-> HullRing(S), mrr |-> MinRectArea(S),
           bbox2 |-> (SetMax({p[1] : p \in S}) - SetMin({p[1] : p \in S})) * (SetMax({p[2] : p \in S}) - SetMin({p[2] : p \in S}))]
-Next == /\ Len(sel) < MaxN
+BigEmit == /\ Len(sel) = 1 /\ sel[1] < 0
+           /\ sel' = <<sel[1], 0>>
+           /\ LET k == 0 - sel[1] IN
+              /\ PrintT(<<"CASE", ToJson(BigCase(SquarePts(k), SquareRing(k), k))>>)
+              /\ PrintT(<<"CASE", ToJson(BigCase(TrianglePts(k), TriangleRing(k), k))>>)
+BigOK == (sel[1] < 0) => LET k == 0 - sel[1] IN IsHullOf(SquarePts(k), SquareRing(k)) /\ IsHullOf(TrianglePts(k), TriangleRing(k))
+NextSmall ==
+        /\ sel[1] > 0 /\ Len(sel) < MaxN
         /\ \E j \in sel[Len(sel)] + 1 .. NG : sel' = Append(sel, j)
         /\ Len(sel') >= 2 => PrintT(<<"CASE", ToJson(Case(sel'))>>)
+Next == BigEmit \/ NextSmall
 Spec == Init /\ [][Next]_vars
 
-HullOK == (Len(sel) >= 3 /\ ~AllCollinear(Pts(sel))) =>
+HullOK == (sel[1] > 0 /\ Len(sel) >= 3 /\ ~AllCollinear(Pts(sel))) =>
     LET S == Pts(sel) h == HullRing(S) n == Len(h) - 1 IN
     /\ n >= 3 /\ h[1] = h[n + 1]
     /\ \A i \in 1 .. n : h[i] \in S
